@@ -63,12 +63,23 @@ import os
 sys.path.insert(0, os.environ.get('VERIF_REPO', '/repo'))
 sys.path.insert(0, %(verif)r)
 req = json.load(sys.stdin)
-if req.get('cpu_s'):
-    resource.setrlimit(resource.RLIMIT_CPU, (req['cpu_s'], req['cpu_s'] + 1))
-if req.get('mem_mb'):
-    resource.setrlimit(resource.RLIMIT_AS, (req['mem_mb'] << 20, req['mem_mb'] << 20))
 import importlib
 mod = importlib.import_module(req['module'])
+# the limits apply to the call only: interpreter start-up and imports (seconds on a loaded
+# machine) are not part of what is measured
+if req.get('cpu_s'):
+    used = int(time.process_time()) + 1
+    resource.setrlimit(resource.RLIMIT_CPU, (used + req['cpu_s'], used + req['cpu_s'] + 1))
+if req.get('mem_mb'):
+    import gc
+    gc.collect()
+    cur = 0
+    for line in open('/proc/self/status'):
+        if line.startswith('VmSize:'):
+            cur = int(line.split()[1]) >> 10
+    lim = (cur + req['mem_mb']) << 20
+    resource.setrlimit(resource.RLIMIT_AS, (lim, lim))
+print('\n@@STARTED@@', flush=True)
 out = getattr(mod, req['func'])(req['arg'])
 print('\n@@RESULT@@' + json.dumps(out, default=str))
 '''
@@ -84,8 +95,123 @@ def run_pristine(module, func, arg, timeout=20, cpu_s=None, mem_mb=None):
         p = subprocess.run([sys.executable, '-c', PRISTINE_RUNNER % dict(verif=verif)],
                            input=json.dumps(req, default=str), capture_output=True, text=True,
                            timeout=timeout, env=env)
-    except subprocess.TimeoutExpired:
-        return dict(status='timeout', result=None)
+    except subprocess.TimeoutExpired as e:
+        started = b'@@STARTED@@' in (e.stdout or b'') if isinstance(e.stdout, (bytes, type(None))) else '@@STARTED@@' in e.stdout
+        return dict(status='timeout', result=None, started=bool(started))
     if '@@RESULT@@' in p.stdout:
         return dict(status='ok', result=json.loads(p.stdout.split('@@RESULT@@')[-1]))
-    return dict(status='crash', result=(p.stderr or '')[-600:], returncode=p.returncode)
+    return dict(status='crash', result=(p.stderr or '')[-600:], returncode=p.returncode,
+                started='@@STARTED@@' in p.stdout)
+
+
+# ---------------------------------------------------------------------------
+# fork server: many resource-limited pristine calls without paying interpreter start-up and
+# imports for each (a loaded machine needs seconds for those)
+# ---------------------------------------------------------------------------
+FORK_SERVER = r'''
+import sys, json, resource, time, os, signal
+sys.path.insert(0, os.environ.get('VERIF_REPO', '/repo'))
+sys.path.insert(0, %(verif)r)
+import importlib
+mods = {}
+out = sys.stdout
+print('@@READY@@', flush=True)
+for line in sys.stdin:
+    req = json.loads(line)
+    mod = mods.get(req['module']) or mods.setdefault(req['module'], importlib.import_module(req['module']))
+    r, w = os.pipe()
+    pid = os.fork()
+    if pid == 0:
+        os.close(r)
+        try:
+            if req.get('cpu_s'):
+                used = int(time.process_time()) + 1
+                resource.setrlimit(resource.RLIMIT_CPU, (used + req['cpu_s'], used + req['cpu_s'] + 1))
+            if req.get('mem_mb'):
+                cur = 0
+                for l in open('/proc/self/status'):
+                    if l.startswith('VmSize:'):
+                        cur = int(l.split()[1]) >> 10
+                lim = (cur + req['mem_mb']) << 20
+                resource.setrlimit(resource.RLIMIT_AS, (lim, lim))
+            try:
+                res = {'ok': getattr(mod, req['func'])(req['arg'])}
+            except MemoryError:
+                res = {'error': 'MemoryError'}
+            except BaseException as e:
+                res = {'error': '%%s: %%s' %% (type(e).__name__, str(e)[:300])}
+            os.write(w, json.dumps(res, default=str).encode())
+        finally:
+            os._exit(0)
+    os.close(w)
+    deadline = time.time() + req.get('wall_s', 600)
+    status = None
+    while True:
+        p, st = os.waitpid(pid, os.WNOHANG)
+        if p:
+            status = st
+            break
+        if time.time() > deadline:
+            os.kill(pid, signal.SIGKILL)
+            os.waitpid(pid, 0)
+            break
+        time.sleep(0.005)
+    data = b''
+    while True:
+        chunk = os.read(r, 65536)
+        if not chunk:
+            break
+        data += chunk
+    os.close(r)
+    rep = {'wall_timeout': status is None, 'signal': (os.WTERMSIG(status) if status is not None and os.WIFSIGNALED(status) else 0),
+           'payload': data.decode('utf-8', 'replace')}
+    print('@@REPLY@@' + json.dumps(rep), flush=True)
+'''
+
+
+class PristineServer:
+    """one pristine interpreter (no import hook, no shims) that forks a resource-limited child per call"""
+
+    def __init__(self):
+        verif = os.path.dirname(os.path.dirname(os.path.abspath(__file__)))
+        env = dict(os.environ, VERIF_PRISTINE='1')
+        self.p = subprocess.Popen([sys.executable, '-u', '-c', FORK_SERVER % dict(verif=verif)], stdin=subprocess.PIPE,
+                                  stdout=subprocess.PIPE, text=True, env=env)
+        line = self.p.stdout.readline()
+        if '@@READY@@' not in line:
+            raise RuntimeError('pristine fork server did not start: %r' % line)
+
+    def call(self, module, func, arg, cpu_s=None, mem_mb=None, wall_s=600):
+        """dict(status=ok|cpu|memory|wall|error, result=...)"""
+        self.p.stdin.write(json.dumps(dict(module=module, func=func, arg=arg, cpu_s=cpu_s, mem_mb=mem_mb,
+                                           wall_s=wall_s), default=str) + '\n')
+        self.p.stdin.flush()
+        while True:
+            line = self.p.stdout.readline()
+            if not line:
+                raise RuntimeError('pristine fork server died')
+            if line.startswith('@@REPLY@@'):
+                break
+        rep = json.loads(line[len('@@REPLY@@'):])
+        if rep['wall_timeout']:
+            return dict(status='wall', result=None)
+        if rep['signal'] in (24, 9):      # SIGXCPU / SIGKILL at the hard limit
+            return dict(status='cpu', result=None)
+        if rep['signal']:
+            return dict(status='error', result='killed by signal %d' % rep['signal'])
+        try:
+            payload = json.loads(rep['payload'])
+        except ValueError:
+            return dict(status='error', result='no result: %r' % rep['payload'][:200])
+        if 'ok' in payload:
+            return dict(status='ok', result=payload['ok'])
+        if payload.get('error') == 'MemoryError':
+            return dict(status='memory', result='MemoryError')
+        return dict(status='error', result=payload.get('error'))
+
+    def close(self):
+        try:
+            self.p.stdin.close()
+            self.p.wait(timeout=10)
+        except Exception:
+            self.p.kill()
